@@ -16,6 +16,16 @@ for pat in args:
     keys = [k for k in REGISTRY if pat == k] or [k for k in REGISTRY if pat in k and not REGISTRY[k].assumed]
     for k in keys:
         c = REGISTRY[k]
+        if getattr(c, "static_only", False):
+            # static (AST) obligation bundles: contracts/C06_cache.py run_effects
+            from contracts.C06_cache import run_effects
+
+            results, _rs = run_effects(k)
+            print(k, "static", {"discharged": sum(1 for _k, ok, _d in results if ok), "failed": sum(1 for _k, ok, _d in results if not ok)})
+            for lab, ok, d in results:
+                if not ok:
+                    print("  ", f"{getattr(c, 'group', 'static')}/{lab}", "failed", d[:1500])
+            continue
         r = (LemmaTask(c) if getattr(c, "is_lemma", False) else VerifyTask(c)).run()
         print(k, r.status, r.message[:3000], "paths", r.paths, r.counts(), "wall", round(r.wall, 2), "solver", round(r.solver_time, 2))
         seen = set()
